@@ -376,6 +376,9 @@ func (w *World) materialize(s *VSpec, owner uint64, target *MCont) (atree.Value,
 			if !ok || i >= len(s.Map.V) || c.findKey(km) >= 0 {
 				continue
 			}
+			if _, refuse := w.collisionRefusal(c, km, -1); refuse {
+				continue // the collision limit would refuse this key (lossy hash input + small limit)
+			}
 			ev, em, err := w.materialize(&s.Map.V[i], owner, nil)
 			if err != nil {
 				if err == errSkip {
